@@ -74,14 +74,15 @@ theorem C11_exportations (h : makeDb toTaxa progs = .ok db) (hn : (pathsOf progs
 
 /-- **C11 (program records).** One record per program, in collection order; timestamp and source
 are stored verbatim; the stored labels (taxa) are those computed — the relabelled labels of the
-program (the taxonomy's answer on them) — each with the sorted list of its distinct spans, projected
-on (start, end). -/
+program (the taxonomy's answer on them). A label name is stored once, with the sorted list of the
+distinct spans of ALL the entries the parser returned under that name (`spansNamed`: a hinted label may
+bear the name of a label an SQL query also derives — fix F47), projected on (start, end). -/
 theorem C11_records (h : makeDb toTaxa progs = .ok db) (hn : (pathsOf progs).Nodup) :
     db.programs = progs.map (fun p => (p.path, recordOf toTaxa (internalOf progs) p)) ∧
     ∀ p ∈ progs, ∃ r, get? db.programs p.path = some r ∧
       r.timestamp = p.timestamp ∧ r.source = p.source ∧
-      (∀ e ∈ r.labels, ∃ l ∈ labelsOf (internalOf progs) p,
-        l.name = e.1 ∧ e.2 = preparedSpans l.spans) ∧
+      (∀ e ∈ r.labels, e.1 ∈ (labelsOf (internalOf progs) p).map (·.name) ∧
+        e.2 = preparedSpans (spansNamed (labelsOf (internalOf progs) p) e.1)) ∧
       (∀ k, k ∈ keys r.labels ↔ k ∈ (labelsOf (internalOf progs) p).map (·.name)) ∧
       (∀ e ∈ r.taxa, ∃ t ∈ toTaxa p.path (labelsOf (internalOf progs) p),
         t.name = e.1 ∧ e.2 = preparedSpans t.spans) ∧
@@ -100,14 +101,15 @@ theorem C11_records (h : makeDb toTaxa progs = .ok db) (hn : (pathsOf progs).Nod
   · exact (preparedTaxa_props _).1
   · exact (preparedTaxa_props _).2.1
 
-/-- **C11 (records, distinct names).** When the label names of a program are pairwise distinct (the
-parser returns the items of a dictionary), each label is found under its name with exactly its
-sorted distinct spans; same for taxa. -/
+/-- **C11 (record lookup).** Every label the parser returned is found under its name, with exactly the
+sorted distinct spans of all the entries of that name — no hypothesis on the names (full strength since
+fix F47). For taxa (distinct names by construction of `to_taxa`) each taxon is found under its name
+with its own sorted spans. -/
 theorem C11_record_lookup (h : makeDb toTaxa progs = .ok db) (hn : (pathsOf progs).Nodup)
     {p : Prog} (hp : p ∈ progs) :
     ∃ r, get? db.programs p.path = some r ∧
-      (((labelsOf (internalOf progs) p).map (·.name)).Nodup →
-        ∀ l ∈ labelsOf (internalOf progs) p, get? r.labels l.name = some (preparedSpans l.spans)) ∧
+      (∀ l ∈ labelsOf (internalOf progs) p,
+        get? r.labels l.name = some (preparedSpans (spansNamed (labelsOf (internalOf progs) p) l.name))) ∧
       (((toTaxa p.path (labelsOf (internalOf progs) p)).map (·.name)).Nodup →
         ∀ t ∈ toTaxa p.path (labelsOf (internalOf progs) p),
           get? r.taxa t.name = some (preparedSpans t.spans)) := by
@@ -117,8 +119,48 @@ theorem C11_record_lookup (h : makeDb toTaxa progs = .ok db) (hn : (pathsOf prog
     apply get?_of_mem_nodup
     · simpa [keys, pathsOf, List.map_map, Function.comp_def] using hn
     · exact List.mem_map.mpr ⟨p, hp, rfl⟩
-  · intro hnn l hl; exact get?_preparedLabels hnn hl
+  · intro l hl; exact get?_preparedLabels _ hl
   · intro hnn t ht; exact get?_preparedTaxa hnn ht
+
+/-- **C11 (no occurrence is lost).** Every span of every entry of the parser's result — computed or
+added by a hint — appears (as its (start, end)) in the list stored under the entry's name, and nothing
+else does. -/
+theorem C11_labels_complete (h : makeDb toTaxa progs = .ok db) (hn : (pathsOf progs).Nodup)
+    {p : Prog} (hp : p ∈ progs) :
+    ∃ r, get? db.programs p.path = some r ∧
+      ∀ k s, (∃ sp, get? r.labels k = some sp ∧ s ∈ sp) ↔
+        ∃ l ∈ labelsOf (internalOf progs) p, l.name = k ∧ ∃ t ∈ l.spans, Span3.poor t = s := by
+  obtain ⟨r, hr, hlab, -⟩ := C11_record_lookup h hn hp
+  obtain ⟨hprog, -⟩ := C11_records h hn
+  have hreq : r = recordOf toTaxa (internalOf progs) p := by
+    have : get? db.programs p.path = some (recordOf toTaxa (internalOf progs) p) := by
+      rw [hprog]
+      apply get?_of_mem_nodup
+      · simpa [keys, pathsOf, List.map_map, Function.comp_def] using hn
+      · exact List.mem_map.mpr ⟨p, hp, rfl⟩
+    rw [this] at hr; exact (Option.some.inj hr).symm
+  refine ⟨r, hr, ?_⟩
+  intro k s
+  constructor
+  · rintro ⟨sp, hsp, hs⟩
+    have hk : k ∈ keys r.labels := get?_isSome.mp ⟨sp, hsp⟩
+    rw [hreq] at hk
+    have hk' := ((preparedLabels_props _).2.1 k).mp hk
+    obtain ⟨l0, hl0, hname⟩ := List.mem_map.mp hk'
+    have := hlab l0 hl0
+    rw [hname, hsp] at this
+    simp only [Option.some.injEq] at this
+    rw [this, mem_preparedSpans] at hs
+    obtain ⟨t, ht, hts⟩ := hs
+    simp only [spansNamed, List.mem_flatMap, List.mem_filter, decide_eq_true_eq] at ht
+    obtain ⟨l, ⟨hl, hlk⟩, htl⟩ := ht
+    exact ⟨l, hl, hlk, t, htl, hts⟩
+  · rintro ⟨l, hl, hlk, t, htl, hts⟩
+    refine ⟨_, by rw [← hlk]; exact hlab l hl, ?_⟩
+    rw [mem_preparedSpans]
+    refine ⟨t, ?_, hts⟩
+    simp only [spansNamed, List.mem_flatMap, List.mem_filter, decide_eq_true_eq]
+    exact ⟨l, ⟨hl, by rw [hlk]⟩, htl⟩
 
 /-- **C11 (sorted spans).** Every span list stored in a program record is sorted (non-decreasing for
 Python's order on pairs) and consists of the (start, end) of computed spans. -/
@@ -130,21 +172,23 @@ theorem C11_spans_sorted (h : makeDb toTaxa progs = .ok db) (hn : (pathsOf progs
   obtain ⟨p, -, rfl⟩ := List.mem_map.mp he
   constructor
   · intro l hl
-    obtain ⟨l', -, -, hv⟩ := (preparedLabels_props _).1 l hl
+    obtain ⟨-, hv⟩ := (preparedLabels_props _).1 l hl
     rw [hv]; exact sorted_preparedSpans _
   · intro t ht
     obtain ⟨t', -, -, hv⟩ := (preparedTaxa_props _).1 t ht
     rw [hv]; exact sorted_preparedSpans _
 
 /-- **C11 (inverted indexes).** `labels` and `taxa` have strictly sorted keys; `labels[l]` is exactly
-the list of the paths of the programs featuring `l`, in collection order (one entry per label
-occurrence of that name), and is absent when no program features `l`; consequently
+the list of the paths of the programs featuring `l`, in collection order, EACH PATH ONCE (fix F47: the
+parser may return several entries of one name for a program; `dedupAdj` drops the repeats, and the list
+is duplicate-free), and is absent when no program features `l`; consequently
 `p ∈ labels[l] ↔ l is a key of p's record`. Same for `taxa`. -/
 theorem C11_indexes (h : makeDb toTaxa progs = .ok db) (hn : (pathsOf progs).Nodup) :
     StrictSorted (keys db.labels) ∧ StrictSorted (keys db.taxa) ∧
     (∀ l, get? db.labels l =
       if occOf (labelOcc (labelled progs)) l = [] then none
-      else some (occOf (labelOcc (labelled progs)) l)) ∧
+      else some (dedupAdj (occOf (labelOcc (labelled progs)) l))) ∧
+    (∀ l ps, get? db.labels l = some ps → ps.Nodup) ∧
     (∀ t, get? db.taxa t =
       if occOf (taxonOcc (taxaed toTaxa progs)) t = [] then none
       else some (occOf (taxonOcc (taxaed toTaxa progs)) t)) ∧
@@ -165,13 +209,20 @@ theorem C11_indexes (h : makeDb toTaxa progs = .ok db) (hn : (pathsOf progs).Nod
       exact ⟨q, hq, e.1, e.2.symm⟩
     · rintro ⟨q, hq, rfl, rfl⟩
       exact get?_of_mem_nodup hnk (List.mem_map.mpr ⟨q, hq, rfl⟩)
-  refine ⟨?_, ?_, ?_, ?_, ?_, ?_⟩
-  · rw [hlab]; exact (sortKeys_props _ (nodup_keys_collect _)).1
+  refine ⟨?_, ?_, ?_, ?_, ?_, ?_, ?_⟩
+  · rw [hlab]; exact (sortKeys_props _ (nodup_keys_collectNew _)).1
   · rw [htax]; exact (sortKeys_props _ (nodup_keys_collect _)).1
-  · intro l; rw [hlab]; exact index_get? _ l
+  · intro l; rw [hlab]; exact indexNew_get? _ l
+  · intro l ps hps
+    rw [hlab, indexNew_get?] at hps
+    split at hps
+    · cases hps
+    · simp only [Option.some.injEq] at hps
+      rw [← hps]
+      exact nodup_dedupAdj_labelOcc _ l (by rw [keys_labelled]; exact hn)
   · intro t; rw [htax]; exact index_get? _ t
   · intro l p
-    rw [hlab, index_inAt, mem_labelOcc]
+    rw [hlab, indexNew_inAt, mem_labelOcc]
     constructor
     · rintro ⟨e, he, hp, hl⟩
       obtain ⟨q, hq, rfl⟩ := List.mem_map.mp he
@@ -199,7 +250,7 @@ theorem makeDb_wf (h : makeDb toTaxa progs = .ok db) (hn : (pathsOf progs).Nodup
   obtain ⟨himpk, himp⟩ := C11_importations h
   obtain ⟨hexpk, hexpinv, hexps⟩ := C11_exportations h hn
   obtain ⟨hprog, -⟩ := C11_records h hn
-  obtain ⟨-, -, -, -, hli, hti⟩ := C11_indexes h hn
+  obtain ⟨-, -, -, -, -, hli, hti⟩ := C11_indexes h hn
   have hkeys : keys db.programs = pathsOf progs := by
     rw [hprog]; simp [keys, pathsOf, List.map_map, Function.comp_def]
   obtain ⟨himpeq, -, -, -, -⟩ := makeDb_ok h
